@@ -130,11 +130,11 @@ package key_certificate
 // ---- parsing
 
 //@ contract NewKeyCertificate(bytes []byte) (key_certificate *KeyCertificate, remainder []byte, err error)
+//@   ensures @C08 fresh(key_certificate.SpkType) && fresh(key_certificate.CpkType) && fresh(certificate.CertPayload(&key_certificate.Certificate)) && fresh(certificate.CertKind(&key_certificate.Certificate)) && fresh(certificate.CertLenBytes(&key_certificate.Certificate))
 //@   ensures @C01 @C03 (err == nil) == (len(bytes) >= 3 && u16(bytes[1:3]) <= len(bytes)-3 && bytes[0] == 5 && u16(bytes[1:3]) >= 4)
 //@   ensures @C03 err == nil ==> suffix(remainder, bytes, 3+u16(bytes[1:3]))
 //@   ensures @C01 err == nil ==> KeyCertInv(key_certificate) && seqeq(certificate.CertWire(&key_certificate.Certificate), bytes[:3+u16(bytes[1:3])])
 //@   ensures @C01 @C10 err == nil ==> certificate.CertType(&key_certificate.Certificate) == 5 && SigType(key_certificate) == u16(bytes[3:5]) && CryptoType(key_certificate) == u16(bytes[5:7])
-//@   ensures @C08 err == nil ==> fresh(key_certificate.SpkType) && fresh(key_certificate.CpkType) && fresh(certificate.CertPayload(&key_certificate.Certificate))
 //@   ensures err != nil ==> key_certificate == nil
 //@   modifies nothing
 
@@ -149,9 +149,9 @@ package key_certificate
 
 //@ contract (keyCertificate KeyCertificate) ConstructPublicKey(data []byte) (public_key types.ReceivingPublicKey, err error)
 //@   requires len(keyCertificate.CpkType) == 2
+//@   ensures @C08 public_key != nil ==> fresh(public_key.Bytes())
 //@   ensures @C10 (err == nil) == (len(data) >= 256 && (u16(keyCertificate.CpkType) == 0 || (4 <= u16(keyCertificate.CpkType) && u16(keyCertificate.CpkType) <= 7)))
 //@   ensures @C10 @C02 err == nil ==> public_key != nil && public_key.Len() == SpecCryptoPubLen(u16(keyCertificate.CpkType)) && seqeq(public_key.Bytes(), data[:SpecCryptoPubLen(u16(keyCertificate.CpkType))])
-//@   ensures @C08 err == nil ==> fresh(public_key.Bytes())
 //@   ensures err != nil ==> public_key == nil
 //@   modifies nothing
 
@@ -166,9 +166,9 @@ package key_certificate
 
 //@ contract (keyCertificate KeyCertificate) ConstructSigningPublicKey(data []byte) (signing_public_key types.SigningPublicKey, err error)
 //@   requires len(keyCertificate.SpkType) == 2
+//@   ensures @C08 signing_public_key != nil ==> fresh(signing_public_key.Bytes())
 //@   ensures @C10 (err == nil) == sigKeyOK(u16(keyCertificate.SpkType), len(data))
 //@   ensures @C10 @C02 err == nil ==> signing_public_key != nil && signing_public_key.Len() == SpecSigPubLen(u16(keyCertificate.SpkType)) && seqeq(signing_public_key.Bytes(), data[sigKeyStart(u16(keyCertificate.SpkType), len(data)):sigKeyStart(u16(keyCertificate.SpkType), len(data))+SpecSigPubLen(u16(keyCertificate.SpkType))])
-//@   ensures @C08 err == nil ==> fresh(signing_public_key.Bytes())
 //@   ensures err != nil ==> signing_public_key == nil
 //@   modifies nothing
 
